@@ -104,21 +104,7 @@ func c13DiffClass(w []byte, res c13Res) string {
 	case len(res.re) < len(in):
 		return "re-encoding shorter than consumed"
 	}
-	nd, at := 0, 0
-	for i := range in {
-		if in[i] != res.re[i] {
-			nd++
-			at = i
-		}
-	}
-	if nd == 1 {
-		cls := fmt.Sprintf("%02x", in[at])
-		if in[at] >= 2 {
-			cls = ">=2"
-		}
-		return fmt.Sprintf("one byte %s re-encoded as %02x", cls, res.re[at])
-	}
-	return "re-encoding differs in several bytes"
+	return "re-encoding has other bytes"
 }
 
 type c13Runner struct {
@@ -169,11 +155,10 @@ func (c *c13Runner) runCase(unit uint64, seed cgenSeed, m cgenMut) {
 		return
 	}
 	c.sink.Class(ct.Name + "|" + m.Kind + "|" + kind)
-	site := cgenLocalise(seed, m, func(sct *cgenType, in []byte, part []byte) bool {
+	site, key := cgenLocaliseKey(seed, m, key, func(sct *cgenType, in []byte, part []byte) (bool, string) {
 		sres := c13Decode(sct, in)
-		sm := m
-		k, _ := c13Verdict(sct, part, sm, in, sres)
-		return k == kind
+		k, kk := c13Verdict(sct, part, m, in, sres)
+		return k == kind, kk
 	})
 	detail := fmt.Sprintf("%s: input %s (seed %s, mutation %s@%d %s) is accepted (consumed %d)", ct.Name, cgenHex(w), cgenHex(seed.enc), m.Kind, m.Pos, m.Val, res.n)
 	if res.re != nil {
@@ -267,6 +252,13 @@ func TestVerif_C13(t *testing.T) {
 			byUnit[seed.unit] = seed
 			planned += cgenMutCount(seed.enc, full)
 		}
+	}
+	if os.Getenv("C13_INPROC") != "" { // profiling aid: no isolation
+		run := &c13Runner{sink: cgenDirectSink{r}, full: full}
+		for _, seed := range units {
+			cgenMutations(seed.enc, full, func(m cgenMut) { run.runCase(seed.unit, seed, m) })
+		}
+		return
 	}
 	r.Extra("sum_planned_cases", planned)
 	r.Extra("seeds_total", len(all))
